@@ -116,4 +116,59 @@ theorem gContainers_good : gContainers.Good := by
   exact ⟨u _ (by decide +kernel) (by simp), u _ (by decide +kernel) (by simp), u _ (by decide +kernel) (by simp),
     valid_of_safe _ (by simp) (by decide +kernel)⟩
 
+/-! ### the documents of the recorded findings (negative theorems `C14_known_*`, `C15_known_*`) -/
+
+/-- `a={ [[p] v ] x=y }` -/
+def kParamScalar : FFields :=
+  .cons [] ⟨false, [97]⟩ [] .eq
+    (.obj [] [32] (.flds (.paramVal [] false [112] [32] ⟨false, [118]⟩ [32]
+      (.cons [32] ⟨false, [120]⟩ [] .eq (.scal [] ⟨false, [121]⟩) .nil))) .nil [32]) .nil
+
+/-- `a={ 1 k={ b>c } }` -/
+def kNestedOperator : FFields :=
+  .cons [] ⟨false, [97]⟩ [] .eq
+    (.arrSM [] [32] ⟨false, [49]⟩ .nil [32] ⟨false, [107]⟩ [] .eq
+      (.cont (.obj [] [32] (.kv ⟨false, [98]⟩ [] .gt (.scal [] ⟨false, [99]⟩)) .nil [32]) .nil) [32]) .nil
+
+/-- `a={ { {} } x }` -/
+def kEmptyFirst : FFields :=
+  .cons [] ⟨false, [97]⟩ [] .eq
+    (.arrC [] (.ghostIn [32] [32] [] (.empty [] [32])) (.cons (.scal [32] ⟨false, [120]⟩) .nil) [32]) .nil
+
+/-- `a=rgb { {} }` -/
+def kHeaderEmpty : FFields :=
+  .consHdr [] ⟨false, [97]⟩ [] .eq [] ⟨false, [114, 103, 98]⟩ (.ghostIn [32] [32] [] (.empty [] [32])) .nil
+
+/-- `a={ 1 b=c { x } d=e f g }`: what the call list of `C15_known_mixed_mode_lost_after_container` describes -/
+def kModeLost : FFields :=
+  .cons [] ⟨false, [97]⟩ [] .eq
+    (.arrSM [] [32] ⟨false, [49]⟩ .nil [32] ⟨false, [98]⟩ [] .eq
+      (.scal [] ⟨false, [99]⟩ (.cont (.arrS [32] [32] ⟨false, [120]⟩ .nil [32])
+        (.scal [32] ⟨false, [100]⟩ (.op [] .eq (.scal [] ⟨false, [101]⟩
+          (.scal [32] ⟨false, [102]⟩ (.scal [32] ⟨false, [103]⟩ .nil))))))) [32]) .nil
+
+/-- `a={ 1 b={ c>d } }`: what the call list of `C15_known_operator_under_stale_mixed_mode` describes -/
+def kStaleOperator : FFields :=
+  .cons [] ⟨false, [97]⟩ [] .eq
+    (.arrSM [] [32] ⟨false, [49]⟩ .nil [32] ⟨false, [98]⟩ [] .eq
+      (.cont (.obj [] [32] (.kv ⟨false, [99]⟩ [] .gt (.scal [] ⟨false, [100]⟩)) .nil [32]) .nil) [32]) .nil
+
+theorem kParamScalar_not_plain : ¬ FPlainF false kParamScalar := by
+  simp [kParamScalar, FPlainF, FPlainV, FPlainFirst, fcntF, fcntV, Op.toks]
+
+theorem kNestedOperator_not_plain : ¬ FPlainF false kNestedOperator := by
+  simp [kNestedOperator, FPlainF, FPlainV, FPlainFirst, FPlainVs, FPlainI]
+
+theorem kEmptyFirst_not_plain : ¬ FPlainF false kEmptyFirst := by
+  simp [kEmptyFirst, FPlainF, FPlainV, emptyC]
+
+theorem kHeaderEmpty_not_plain : ¬ FPlainF false kHeaderEmpty := by
+  simp [kHeaderEmpty, FPlainF, emptyC]
+
+theorem kModeLost_not_callsOK : ¬ CallsOKF kModeLost := by
+  simp [kModeLost, CallsOKF, CallsOKV, CallsOKVs, CallsOKI]
+
+theorem kStaleOperator_not_plain : ¬ FPlainF false kStaleOperator := by
+  simp [kStaleOperator, FPlainF, FPlainV, FPlainFirst, FPlainVs, FPlainI]
+
 end Jomini.WriterExamples
